@@ -1,5 +1,83 @@
 import ZoektModel.Basic.Proto
+import ZoektModel.C21.Spec
 namespace ZoektModel.C21
-/-- stub: no model driver for C21 yet -/
-def main : IO Unit := ZoektModel.Proto.runLines (fun _ => ZoektModel.Proto.badCase "no model driver for C21")
+open ZoektModel ZoektModel.Proto
+
+/-! line protocol
+
+shard <shardMax> <repoMax> <cancelAt | -> <full|files> <docs>      docs := doc ("," doc)* ; doc := repo:skip:cand:(count|x)
+   impl (full):  files=<ids> considered=<n> skipped=<n> shardskipped=<0|1>
+   impl (files): files=<ids>
+total <totalMax> <slack> <counts> <sent>
+   impl: k=<shards returned> matches=<aggregated MatchCount>
+-/
+
+def parseDoc (idx : Nat) (s : String) : Option Doc :=
+  match s.splitOn ":" with
+  | [r, sk, c, n] => do
+    let fm ← if n == "x" then some none else n.toNat?.map fun k => some (FM.mk idx k)
+    pure ⟨← r.toNat?, ← bool? sk, ← bool? c, fm⟩
+  | _ => none
+
+def parseDocs (s : String) : Option (List Doc) :=
+  if s == "-" then some [] else
+  let parts := s.splitOn ","
+  (parts.zip (List.range parts.length)).mapM fun p => parseDoc p.2 p.1
+
+def parseCancel (s : String) : Option (Option Nat) :=
+  if s == "-" then some none else s.toNat?.map some
+
+def kv (key : String) (s : String) : Option String :=
+  if s.startsWith (key ++ "=") then some (s.drop (key.length + 1)).toString else none
+
+def handleShard (shardMax repoMax : Nat) (cancelAt : Option Nat) (full : Bool) (docs : List Doc) (impl : String) : String :=
+  let (out, skippedShard) := searchShard shardMax repoMax cancelAt docs
+  let ids := showNatList (out.files.map (·.id))
+  let model :=
+    if full then s!"files={ids} considered={out.considered} skipped={out.skipped} shardskipped={showBool skippedShard}"
+    else s!"files={ids}"
+  let unlimited := docs.filterMap fun d => if d.skip then none else d.fm
+  let implFiles : Option (List Nat × Option Nat) :=
+    match fields impl with
+    | [a] => do pure (← natList? (← kv "files" a), none)
+    | [a, b, _, _] => do pure (← natList? (← kv "files" a), some (← (← kv "considered" b).toNat?))
+    | _ => none
+  match implFiles with
+  | none => badCase "impl output"
+  | some (ids, considered) =>
+    -- the implementation's files, as FileMatches: the harness has already compared each returned FileMatch with the
+    -- unlimited one field by field (Go oracle); here identity is the document and its match count
+    let lim := ids.filterMap fun i => (docs[i]?).bind (·.fm)
+    if lim.length != ids.length then specFail model "returned-a-file-the-unlimited-search-does-not"
+    else if !(checkShard unlimited lim) then specFail model "not-a-sublist"
+    else if !(checkPrompt cancelAt lim (considered.getD lim.length)) then specFail model "not-prompt"
+    else answer model
+
+def handleTotal (totalMax slack : Nat) (counts sent : List Nat) (_impl : String) : String :=
+  let cf := fun i => counts.getD i 0
+  let model := s!"k={sent.length} matches={(sent.map cf).sum}"
+  if !(checkTotal counts.length totalMax cf sent slack) then specFail model "total-limit"
+  else
+    -- the observed behaviour must be a behaviour of the model: replay it as a schedule
+    -- (hand out shards as late as possible: just before their result is received)
+    let sched : List Ev := (List.range sent.length).flatMap (fun _ => [Ev.dispatch]) ++ sent.map Ev.recv
+    match ssRun counts.length totalMax cf {} sched with
+    | none => specFail model "total-limit-schedule"
+    | some s => if s.sent == sent then answer model else specFail model "total-limit-schedule"
+
+def handle (line : String) : String :=
+  let (inp, impl) := splitCase line
+  match fields inp with
+  | ["shard", sm, rm, ca, mode, ds] =>
+    match sm.toNat?, rm.toNat?, parseCancel ca, parseDocs ds with
+    | some shardMax, some repoMax, some cancelAt, some docs =>
+      handleShard shardMax repoMax cancelAt (mode == "full") docs impl
+    | _, _, _, _ => badCase "fields"
+  | ["total", tm, sl, cs, se] =>
+    match tm.toNat?, sl.toNat?, natList? cs, natList? se with
+    | some totalMax, some slack, some counts, some sent => handleTotal totalMax slack counts sent impl
+    | _, _, _, _ => badCase "fields"
+  | _ => badCase "op"
+
+def main : IO Unit := runLines handle
 end ZoektModel.C21
